@@ -932,6 +932,7 @@ pub struct Stats {
     pub fused_drops_fired: u64,
     pub closure_panics: u64,
     pub world_drops_with_panicking_drop: u64,
+    pub world_drops_while_unwinding: u64,
     pub values_leaked_by_world_drop: u64,
     pub by_op: BTreeMap<String, u64>,
 }
@@ -2206,8 +2207,30 @@ impl Case {
         let mut model_drop_done = false;
         match fuse {
             None => {
+                let wp = self.wp as usize;
+                // one history in three: the world is dropped by a destructor while the thread unwinds
+                // (a local of a frame that a panic takes down); every stored value is dropped all the same
                 // SAFETY: created by Box::into_raw in `new`, nothing refers to it any more
-                unsafe { drop(Box::from_raw(self.wp)) };
+                if self.stats.ops % 3 == 1 {
+                    self.stats.world_drops_while_unwinding += 1;
+                    if let Err(e) = in_unwinding(move || catch(move || unsafe { drop(Box::from_raw(wp as *mut World)) })) {
+                        self.impl_v.push(("C09".into(), format!("dropping the world while the thread unwinds panicked: {}", e)));
+                    }
+                } else {
+                    unsafe { drop(Box::from_raw(wp as *mut World)) };
+                }
+                if self.impl_v.is_empty() {
+                    let during: Vec<(u8, u64)> = LOG.lock().unwrap_or_else(|e| e.into_inner()).dropped[n_before..].to_vec();
+                    let mut stored: Vec<(u8, u64)> = self.refmap.iter().map(|(k, t)| (k.0, if k.0 == 0 { 0 } else { *t })).collect();
+                    for d in &during {
+                        if let Some(i) = stored.iter().position(|x| x == d) {
+                            stored.remove(i);
+                        }
+                    }
+                    if !stored.is_empty() {
+                        self.impl_v.push(("C09".into(), format!("the world was dropped{} but {} of the values it held were not (type, token): {:?}", if self.stats.ops % 3 == 1 { " (by a destructor while the thread unwinds)" } else { "" }, stored.len(), stored)));
+                    }
+                }
             }
             Some((k, tok)) => {
                 arm(k.0, tok);
@@ -3021,6 +3044,7 @@ pub fn run(args: &Args, rep: &mut Report) {
         rep.add("panicking_drops_fired", st.fused_drops_fired);
         rep.add("caller_closure_panics_inside_world_calls", st.closure_panics);
         rep.add("world_drops_with_a_panicking_drop", st.world_drops_with_panicking_drop);
+        rep.add("world_drops_while_the_thread_unwinds", st.world_drops_while_unwinding);
         rep.add("values_leaked_by_interrupted_world_drops", st.values_leaked_by_world_drop);
         rep.maxi("max_live_guards", st.max_live);
         rep.maxi("max_shared_guards_on_one_cell", st.max_shared_on_one);
